@@ -642,7 +642,13 @@ impl Engine {
             let lenclass = len_class(len, self.page);
             cx.cover("state_x_len_class", &format!("{}|{}", st.name(), lenclass));
             // (6) contents
-            if let Some(s) = l.r.slice() {
+            // reading what the type says is readable: a fault here is attributed by the fatal-signal reporter
+            crate::ctx::set_marker("observe contents of a region whose type permits reading");
+            let readable_view = l.r.slice();
+            if let Some(s) = readable_view {
+                let _probe = if s.is_empty() { 0 } else { unsafe { std::ptr::read_volatile(s.as_ptr()) } };
+            }
+            if let Some(s) = readable_view {
                 cx.eval();
                 if s.as_ptr() as usize != l.addr {
                     viols.push((format!("{}|{}|allocation_moved_by_transition", pfx, kind), json!({"state":st.name(),"len":len})));
@@ -650,6 +656,7 @@ impl Engine {
                     viols.push((format!("{}|{}|contents_changed_by_transition", pfx, kind), json!({"state":st.name(),"len":len,"after":after,"got":hx(&s[..s.len().min(32)]),"want":hx(&l.shadow[..len.min(32)])})));
                 }
             }
+            crate::ctx::clear_marker();
             // (1) page rights of every page holding data
             for pg in self.pages_of(l.addr, len) {
                 cx.eval();
